@@ -338,7 +338,20 @@ def callee_constraints(port, modname, walker):
     out = []
     if res_var is None:
         return out, None
+    # boolean flags bound once at the top level to a test over the result (`has_select = SELECT in result`) stand for that test
+    from .pathsem import subst as _subst
+    flags = {}
     for st in fd.body:
+        if isinstance(st, ast.Assign) and len(st.targets) == 1 and isinstance(st.targets[0], ast.Name) and isinstance(st.value, (ast.Compare, ast.BoolOp, ast.UnaryOp, ast.Call)) and res_var in names_in(st.value):
+            nm = st.targets[0].id
+            if sum(1 for x in ast.walk(fd) if isinstance(x, ast.Name) and x.id == nm and isinstance(x.ctx, ast.Store)) == 1:
+                flags[nm] = st.value
+    for st in fd.body:
+        if isinstance(st, ast.If) and not st.orelse and walker.always_raises(st.body) and flags and (names_in(st.test) & set(flags)):
+            t_ = _subst(st.test, flags)
+            if res_var in names_in(t_):
+                out.append((t_, walker.always_raises(st.body), st))
+                continue
         if isinstance(st, ast.If) and not st.orelse and walker.always_raises(st.body) and res_var in names_in(st.test):
             out.append((st.test, walker.always_raises(st.body), st))
         if isinstance(st, ast.Assert) and res_var in names_in(st.test):
